@@ -3,6 +3,7 @@
 MODULES = {
     'verif_core.rs': {'owner': 'crates/lib/src/lib.rs', 'name': 'verif_core'},
 }
+MODULES['verif_common.rs'] = {'owner': 'crates/lib/src/lib.rs', 'name': 'verif_common'}
 GENERATED = {}
 
 HARNESSES = {
@@ -25,7 +26,10 @@ HARNESSES = {
         'what': 'identity conversion', 'bounded': True, 'bound': 'slices up to 8 bytes'},
 }
 
+HARNESSES['common_valve'] = {'module': 'verif_common.rs', 'target': 'impl CommonResponse for valve::Response, impl CommonPlayer for valve::ServerPlayer',
+    'what': 'accessors return the very fields (pointer identity for strings, equality for all scalar values), as_json == accessors, as_original is self', 'bounded': True, 'bound': '1 player'}
 SETS = {
+    'C15': ['common_valve'],
     'C17': ['varint_roundtrip_all_i32', 'varint_decode_matches_reference', 'byteorder_specs', 'byteorder_read_u16_into_spec',
             'idiom_position_eq_spec', 'idiom_skip_take_position_eq_spec', 'idiom_chunks2_position_eq_spec', 'rotr_spec',
             'identity_try_into_spec'],
